@@ -9,6 +9,6 @@ cp -r /repo/mpilot /repo/tests "$D"/ 2>/dev/null
 find "$D" -name __pycache__ -prune -exec rm -rf {} +
 ( cd "$D" && patch -p1 -s < "$P" ) || { echo "PATCH FAILED"; rm -rf "$D"; exit 3; }
 if [ $T = 1 ]; then ( cd "$D" && /venv/bin/python -m pytest -q -p no:cacheprovider -x 2>&1 | tail -3 ); fi
-MPILOT_VERIF_REPO="$D" /verif/check "$@"; rc=$?
+MPILOT_VERIF_REPO="$D" VERIF_EVIDENCE_DIR="$D/evidence" VERIF_VIOLATION_DIR="$D/violations" /verif/check "$@"; rc=$?
 rm -rf "$D"
 exit $rc
